@@ -5,6 +5,7 @@ import (
 	"go/constant"
 	"go/token"
 	"go/types"
+	"sort"
 	"strings"
 
 	"golang.org/x/tools/go/ssa"
@@ -218,12 +219,40 @@ func (f *frame) storeAt(p Val, t types.Type, val string, st *hstate) *hstate {
 func (f *frame) havocTo(from *hstate, names map[string]bool) {
 	vc := f.vc
 	f.st = vc.havoc(from, names)
+	if names["*"] {
+		vc.didHavocAll = true
+	}
 	if names["*"] || names["alloc"] {
 		a0 := vc.lookup(from, "alloc", allocSort)
 		a1 := vc.lookup(f.st, "alloc", allocSort)
 		if a0 != a1 {
 			f.assume(fmt.Sprintf("(forall ((r Int)) (! (=> (select %s r) (select %s r)) :pattern ((select %s r))))", a0, a1, a1))
 		}
+	}
+}
+
+// assumeFreshOnly: for every heap in mods that is not in nonFresh, objects allocated in state pre are unchanged.
+func (f *frame) assumeFreshOnly(pre, post *hstate, mods, nonFresh map[string]bool) {
+	vc := f.vc
+	allocPre := vc.lookup(pre, "alloc", allocSort)
+	var hs []string
+	for h := range mods {
+		if !nonFresh[h] && h != "alloc" && h != "*" {
+			hs = append(hs, h)
+		}
+	}
+	sort.Strings(hs)
+	for _, h := range hs {
+		srt, ok := vc.sortForHeap(h)
+		if !ok || !strings.HasPrefix(srt, "(Array Int") {
+			continue
+		}
+		hp := vc.lookup(pre, h, srt)
+		hq := vc.lookup(post, h, srt)
+		if hp == hq {
+			continue
+		}
+		f.assume(fmt.Sprintf("(forall ((r Int)) (! (=> (select %s (root r)) (= (select %s r) (select %s r))) :pattern ((select %s r))))", allocPre, hq, hp, hq))
 	}
 }
 
@@ -589,8 +618,22 @@ func (f *frame) enterLoop(li *loopInfo, predIdx []int, conds []string) {
 	}
 	// havoc
 	mods := f.modsInLoop(li)
+	pre := f.st
 	f.havocTo(f.st, mods)
 	li.headSt = f.st
+	// heaps the loop writes only at objects it allocates itself: everything allocated before the loop is unchanged
+	if !mods["*"] {
+		nonFresh := map[string]bool{}
+		inLoop := func(ins ssa.Instruction) bool { return li.blocks[ins.Block()] }
+		for blk := range li.blocks {
+			for _, ins := range blk.Instrs {
+				vc.eng.instrNonFresh(ins, nonFresh, inLoop)
+			}
+		}
+		if !nonFresh["*"] {
+			f.assumeFreshOnly(pre, f.st, mods, nonFresh)
+		}
+	}
 	cur := map[*ssa.Phi]string{}
 	for _, phi := range phis {
 		n := vc.fresh(phi.Name(), vc.sortOf(phi.Type()))
